@@ -1,0 +1,256 @@
+//go:build verif
+
+package internal
+
+// Contracts for the payload accessors (checked by /verif/gocv; comment-only file).
+//
+//@ spec func sigQ(p *DumpedMachineStatePayload) SignatureProposalQuorum = p.SignatureProposalPayload.Quorum
+//@ spec func dkgQ(p *DumpedMachineStatePayload) DKGProposalQuorum = p.DKGProposalPayload.Quorum
+//@ spec func sgnQ(p *DumpedMachineStatePayload) SigningProposalQuorum = p.SigningProposalPayload.Quorum
+//
+// well-formedness of the three quorums: every registered participant record exists
+//@ spec func wfSigQ(p *DumpedMachineStatePayload) bool = p != nil && p.SignatureProposalPayload != nil && (forall k int :: k in sigQ(p) ==> sigQ(p)[k] != nil)
+//@ spec func wfDkgQ(p *DumpedMachineStatePayload) bool = p != nil && p.DKGProposalPayload != nil && (forall k int :: k in dkgQ(p) ==> dkgQ(p)[k] != nil)
+//@ spec func wfSgnQ(p *DumpedMachineStatePayload) bool = p != nil && p.SigningProposalPayload != nil && (forall k int :: k in sgnQ(p) ==> sgnQ(p)[k] != nil)
+
+// ---- signature quorum
+
+//@ func (*DumpedMachineStatePayload).SigQuorumCount
+//@   safety C18
+//@   requires p != nil && p.SignatureProposalPayload != nil
+//@   pure
+//@   ensures result == len(sigQ(p))
+
+//@ func (*DumpedMachineStatePayload).SigQuorumExists
+//@   safety C18
+//@   requires p != nil && p.SignatureProposalPayload != nil
+//@   pure
+//@   ensures result == (id in sigQ(p))
+
+//@ func (*DumpedMachineStatePayload).SigQuorumGet
+//@   safety C18
+//@   requires p != nil && p.SignatureProposalPayload != nil
+//@   pure
+//@   ensures participant == sigQ(p)[id]
+
+//@ func (*DumpedMachineStatePayload).SigQuorumUpdate
+//@   safety C18
+//@   requires p != nil && p.SignatureProposalPayload != nil
+//@   modifies map[int]*SignatureProposalParticipant
+//@   ensures sigQ(p) == old(sigQ(p))
+//@   ensures sigQ(p) != nil ==> dom(sigQ(p)) == with(old(dom(sigQ(p))), id, true) && vals(sigQ(p)) == with(old(vals(sigQ(p))), id, participant)
+//@   ensures sigQ(p) != nil ==> len(sigQ(p)) == old(len(sigQ(p))) + ite(old(id in sigQ(p)), 0, 1)
+//@   ensures forall m SignatureProposalQuorum :: m != sigQ(p) ==> dom(m) == old(dom(m)) && vals(m) == old(vals(m)) && len(m) == old(len(m))
+
+// ---- DKG quorum
+
+//@ func (*DumpedMachineStatePayload).DKGQuorumCount
+//@   safety C18
+//@   requires p != nil && p.DKGProposalPayload != nil
+//@   pure
+//@   ensures result == len(dkgQ(p))
+
+//@ func (*DumpedMachineStatePayload).DKGQuorumExists
+//@   safety C18
+//@   requires p != nil && p.DKGProposalPayload != nil
+//@   pure
+//@   ensures result == (id in dkgQ(p))
+
+//@ func (*DumpedMachineStatePayload).DKGQuorumGet
+//@   safety C18
+//@   requires p != nil && p.DKGProposalPayload != nil
+//@   pure
+//@   ensures participant == dkgQ(p)[id]
+
+//@ func (*DumpedMachineStatePayload).DKGQuorumUpdate
+//@   safety C18
+//@   requires p != nil && p.DKGProposalPayload != nil
+//@   modifies map[int]*DKGProposalParticipant
+//@   ensures dkgQ(p) == old(dkgQ(p))
+//@   ensures dkgQ(p) != nil ==> dom(dkgQ(p)) == with(old(dom(dkgQ(p))), id, true) && vals(dkgQ(p)) == with(old(vals(dkgQ(p))), id, participant)
+//@   ensures dkgQ(p) != nil ==> len(dkgQ(p)) == old(len(dkgQ(p))) + ite(old(id in dkgQ(p)), 0, 1)
+//@   ensures forall m DKGProposalQuorum :: m != dkgQ(p) ==> dom(m) == old(dom(m)) && vals(m) == old(vals(m)) && len(m) == old(len(m))
+
+// ---- signing quorum
+
+//@ func (*DumpedMachineStatePayload).SigningQuorumCount
+//@   safety C18
+//@   requires p != nil && p.SigningProposalPayload != nil
+//@   pure
+//@   ensures result == len(sgnQ(p))
+
+//@ func (*DumpedMachineStatePayload).GetThreshold
+//@   safety C18
+//@   requires p != nil
+//@   pure
+//@   ensures result == p.Threshold
+
+//@ func (*DumpedMachineStatePayload).SigningQuorumExists
+//@   safety C18
+//@   requires p != nil && p.SigningProposalPayload != nil
+//@   pure
+//@   ensures result == (id in sgnQ(p))
+
+// SigningQuorumGet may initialise the PartialSigns map of the participant it returns
+//@ func (*DumpedMachineStatePayload).SigningQuorumGet
+//@   safety C18
+//@   requires p != nil && p.SigningProposalPayload != nil
+//@   requires sgnQ(p) != nil ==> sgnQ(p)[id] != nil
+//@   modifies SigningProposalParticipant.PartialSigns
+//@   ensures participant == sgnQ(p)[id]
+//@   ensures participant != nil ==> participant.PartialSigns != nil
+//@   ensures participant != nil && old(participant.PartialSigns) != nil ==> participant.PartialSigns == old(participant.PartialSigns)
+//@   ensures participant != nil && old(participant.PartialSigns) == nil ==> fresh(participant.PartialSigns) && len(participant.PartialSigns) == 0
+//@   ensures forall q *SigningProposalParticipant :: q != participant ==> q.PartialSigns == old(q.PartialSigns)
+
+//@ func (*DumpedMachineStatePayload).SigningQuorumUpdate
+//@   safety C18
+//@   requires p != nil && p.SigningProposalPayload != nil
+//@   modifies map[int]*SigningProposalParticipant
+//@   ensures sgnQ(p) == old(sgnQ(p))
+//@   ensures sgnQ(p) != nil ==> dom(sgnQ(p)) == with(old(dom(sgnQ(p))), id, true) && vals(sgnQ(p)) == with(old(vals(sgnQ(p))), id, participant)
+//@   ensures sgnQ(p) != nil ==> len(sgnQ(p)) == old(len(sgnQ(p))) + ite(old(id in sgnQ(p)), 0, 1)
+//@   ensures forall m SigningProposalQuorum :: m != sgnQ(p) ==> dom(m) == old(dom(m)) && vals(m) == old(vals(m)) && len(m) == old(len(m))
+
+// ---- expiry
+
+//@ ghost func timeBefore(a time.Time, b time.Time) bool
+
+//@ func (*SignatureConfirmation).IsExpired
+//@   safety C18
+//@   requires c != nil
+//@   pure
+//@   ensures result == timeBefore(c.ExpiresAt, c.UpdatedAt)
+
+//@ func (*DKGConfirmation).IsExpired
+//@   safety C18
+//@   requires c != nil
+//@   pure
+//@   ensures result == timeBefore(c.ExpiresAt, c.UpdatedAt)
+
+//@ func (*SigningConfirmation).IsExpired
+//@   safety C18
+//@   requires c != nil
+//@   pure
+//@   ensures result == timeBefore(c.ExpiresAt, c.UpdatedAt)
+
+// ---- ordered iteration
+//
+// GetOrderedParticipants returns the registered participants in ascending order of their ids and
+// stamps each record with its id. Proved here: no panic, one entry per key, every entry is the
+// record registered under the id it carries; the ascending order comes from sort.Ints (assumed).
+
+//@ spec func injSgn(q SigningProposalQuorum) bool = forall a int, b int :: (a in q) && (b in q) && a != b ==> q[a] != q[b]
+
+//@ func (SigningProposalQuorum).GetOrderedParticipants
+//@   safety C18
+//@   requires forall k int :: k in q ==> q[k] != nil
+//@   requires injSgn(q)
+//@   modifies SigningProposalParticipant.ParticipantID
+//@   ensures[C08.ordered.len] len(result) == len(q)
+//@   ensures[C08.ordered.members] forall i int :: 0 <= i && i < len(result) ==> result[i] != nil && (result[i].ParticipantID in q) && q[result[i].ParticipantID] == result[i]
+//@   ensures[C08.ordered.asc] forall i int, j int :: 0 <= i && i < j && j < len(result) ==> result[i].ParticipantID < result[j].ParticipantID
+//   every registered id occurs in the result: follows from the three proved clauses above by the pigeonhole principle
+//   (len(result) == len(q), all entries are keys of q, strictly ascending hence distinct); not mechanised, stated as trusted
+//@   trusted[C08.ordered.onto] forall k int :: k in q ==> (exists i int :: 0 <= i && i < len(result) && result[i].ParticipantID == k)
+//@   ensures[C08.ordered.frame] forall p *SigningProposalParticipant :: p.ParticipantID == old(p.ParticipantID) || (exists k int :: (k in q) && q[k] == p)
+//@   ensures fresh(result) || len(result) == 0
+//@   loop 0 invariant len(sortedParticipantIDs) == card($visited)
+//@   loop 0 invariant forall i int :: 0 <= i && i < len(sortedParticipantIDs) ==> (sortedParticipantIDs[i] in $visited)
+//@   loop 0 invariant forall i int, j int :: 0 <= i && i < j && j < len(sortedParticipantIDs) ==> sortedParticipantIDs[i] != sortedParticipantIDs[j]
+//@   loop 0 invariant len(sortedParticipantIDs) == 0 || fresh(sortedParticipantIDs)
+//@   loop 1 invariant len(out) == $i + 1
+//@   loop 1 invariant forall i int :: 0 <= i && i < len(sortedParticipantIDs) ==> (sortedParticipantIDs[i] in q)
+//@   loop 1 invariant forall i int, j int :: 0 <= i && i < j && j < len(sortedParticipantIDs) ==> sortedParticipantIDs[i] < sortedParticipantIDs[j]
+//@   loop 1 invariant len(out) == 0 || fresh(out)
+//@   loop 1 invariant forall j int :: 0 <= j && j <= $i ==> out[j] == q[sortedParticipantIDs[j]] && out[j].ParticipantID == sortedParticipantIDs[j]
+//@   loop 1 invariant forall p *SigningProposalParticipant :: p.ParticipantID == old(p.ParticipantID) || (exists k int :: (k in q) && q[k] == p)
+
+//@ spec func injSig(q SignatureProposalQuorum) bool = forall a int, b int :: (a in q) && (b in q) && a != b ==> q[a] != q[b]
+
+//@ func (SignatureProposalQuorum).GetOrderedParticipants
+//@   safety C18
+//@   requires forall k int :: k in q ==> q[k] != nil
+//@   requires injSig(q)
+//@   modifies SignatureProposalParticipant.ParticipantID
+//@   ensures[C08.ordered.len] len(result) == len(q)
+//@   ensures[C08.ordered.members] forall i int :: 0 <= i && i < len(result) ==> result[i] != nil && (result[i].ParticipantID in q) && q[result[i].ParticipantID] == result[i]
+//@   ensures[C08.ordered.asc] forall i int, j int :: 0 <= i && i < j && j < len(result) ==> result[i].ParticipantID < result[j].ParticipantID
+//   every registered id occurs in the result: follows from the three proved clauses above by the pigeonhole principle
+//   (len(result) == len(q), all entries are keys of q, strictly ascending hence distinct); not mechanised, stated as trusted
+//@   trusted[C08.ordered.onto] forall k int :: k in q ==> (exists i int :: 0 <= i && i < len(result) && result[i].ParticipantID == k)
+//@   ensures[C08.ordered.frame] forall p *SignatureProposalParticipant :: p.ParticipantID == old(p.ParticipantID) || (exists k int :: (k in q) && q[k] == p)
+//@   ensures fresh(result) || len(result) == 0
+//@   loop 0 invariant len(sortedParticipantIDs) == card($visited)
+//@   loop 0 invariant forall i int :: 0 <= i && i < len(sortedParticipantIDs) ==> (sortedParticipantIDs[i] in $visited)
+//@   loop 0 invariant forall i int, j int :: 0 <= i && i < j && j < len(sortedParticipantIDs) ==> sortedParticipantIDs[i] != sortedParticipantIDs[j]
+//@   loop 0 invariant len(sortedParticipantIDs) == 0 || fresh(sortedParticipantIDs)
+//@   loop 1 invariant len(out) == $i + 1
+//@   loop 1 invariant forall i int :: 0 <= i && i < len(sortedParticipantIDs) ==> (sortedParticipantIDs[i] in q)
+//@   loop 1 invariant forall i int, j int :: 0 <= i && i < j && j < len(sortedParticipantIDs) ==> sortedParticipantIDs[i] < sortedParticipantIDs[j]
+//@   loop 1 invariant len(out) == 0 || fresh(out)
+//@   loop 1 invariant forall j int :: 0 <= j && j <= $i ==> out[j] == q[sortedParticipantIDs[j]] && out[j].ParticipantID == sortedParticipantIDs[j]
+//@   loop 1 invariant forall p *SignatureProposalParticipant :: p.ParticipantID == old(p.ParticipantID) || (exists k int :: (k in q) && q[k] == p)
+
+//@ spec func injDkg(q DKGProposalQuorum) bool = forall a int, b int :: (a in q) && (b in q) && a != b ==> q[a] != q[b]
+
+//@ func (DKGProposalQuorum).GetOrderedParticipants
+//@   safety C18
+//@   requires forall k int :: k in q ==> q[k] != nil
+//@   requires injDkg(q)
+//@   modifies DKGProposalParticipant.ParticipantID
+//@   ensures[C08.ordered.len] len(result) == len(q)
+//@   ensures[C08.ordered.members] forall i int :: 0 <= i && i < len(result) ==> result[i] != nil && (result[i].ParticipantID in q) && q[result[i].ParticipantID] == result[i]
+//@   ensures[C08.ordered.asc] forall i int, j int :: 0 <= i && i < j && j < len(result) ==> result[i].ParticipantID < result[j].ParticipantID
+//   every registered id occurs in the result: follows from the three proved clauses above by the pigeonhole principle
+//   (len(result) == len(q), all entries are keys of q, strictly ascending hence distinct); not mechanised, stated as trusted
+//@   trusted[C08.ordered.onto] forall k int :: k in q ==> (exists i int :: 0 <= i && i < len(result) && result[i].ParticipantID == k)
+//@   ensures[C08.ordered.frame] forall p *DKGProposalParticipant :: p.ParticipantID == old(p.ParticipantID) || (exists k int :: (k in q) && q[k] == p)
+//@   ensures fresh(result) || len(result) == 0
+//@   loop 0 invariant len(sortedParticipantIDs) == card($visited)
+//@   loop 0 invariant forall i int :: 0 <= i && i < len(sortedParticipantIDs) ==> (sortedParticipantIDs[i] in $visited)
+//@   loop 0 invariant forall i int, j int :: 0 <= i && i < j && j < len(sortedParticipantIDs) ==> sortedParticipantIDs[i] != sortedParticipantIDs[j]
+//@   loop 0 invariant len(sortedParticipantIDs) == 0 || fresh(sortedParticipantIDs)
+//@   loop 1 invariant len(out) == $i + 1
+//@   loop 1 invariant forall i int :: 0 <= i && i < len(sortedParticipantIDs) ==> (sortedParticipantIDs[i] in q)
+//@   loop 1 invariant forall i int, j int :: 0 <= i && i < j && j < len(sortedParticipantIDs) ==> sortedParticipantIDs[i] < sortedParticipantIDs[j]
+//@   loop 1 invariant len(out) == 0 || fresh(out)
+//@   loop 1 invariant forall j int :: 0 <= j && j <= $i ==> out[j] == q[sortedParticipantIDs[j]] && out[j].ParticipantID == sortedParticipantIDs[j]
+//@   loop 1 invariant forall p *DKGProposalParticipant :: p.ParticipantID == old(p.ParticipantID) || (exists k int :: (k in q) && q[k] == p)
+
+// ---- user registry
+
+//@ func (*DumpedMachineStatePayload).SetPubKeyUsername
+//@   safety C18
+//@   requires p != nil
+//@   modifies DumpedMachineStatePayload.PubKeys, "map[string]ed25519.PublicKey"
+//@   ensures p.PubKeys != nil && (old(p.PubKeys) != nil ==> p.PubKeys == old(p.PubKeys)) && (old(p.PubKeys) == nil ==> fresh(p.PubKeys))
+//@   ensures (username in p.PubKeys) && p.PubKeys[username] == pubKey
+//@   ensures old(p.PubKeys) != nil ==> dom(p.PubKeys) == with(old(dom(p.PubKeys)), username, true) && vals(p.PubKeys) == with(old(vals(p.PubKeys)), username, pubKey)
+//@   ensures forall q *DumpedMachineStatePayload :: q != p ==> q.PubKeys == old(q.PubKeys)
+//@   ensures forall mm map[string]ed25519.PublicKey :: mm != p.PubKeys ==> dom(mm) == old(dom(mm)) && vals(mm) == old(vals(mm))
+
+//@ func (*DumpedMachineStatePayload).SetIDUsername
+//@   safety C18
+//@   requires p != nil
+//@   modifies DumpedMachineStatePayload.IDs, "map[string]int"
+//@   ensures p.IDs != nil && (old(p.IDs) != nil ==> p.IDs == old(p.IDs)) && (old(p.IDs) == nil ==> fresh(p.IDs))
+//@   ensures (username in p.IDs) && p.IDs[username] == id
+//@   ensures old(p.IDs) != nil ==> dom(p.IDs) == with(old(dom(p.IDs)), username, true) && vals(p.IDs) == with(old(vals(p.IDs)), username, id)
+//@   ensures forall q *DumpedMachineStatePayload :: q != p ==> q.IDs == old(q.IDs)
+//@   ensures forall mm map[string]int :: mm != p.IDs ==> dom(mm) == old(dom(mm)) && vals(mm) == old(vals(mm))
+
+// the key registered for a sender name, exactly (case-sensitive); an error for unknown or empty names
+//@ func (*DumpedMachineStatePayload).GetPubKeyByUsername
+//@   safety C18
+//@   requires p != nil
+//@   pure
+//@   ensures[C09.key] result1 == nil <==> (p.PubKeys != nil && username != "" && (username in p.PubKeys))
+//@   ensures[C09.key] result1 == nil ==> result0 == p.PubKeys[username]
+
+//@ func (*DumpedMachineStatePayload).GetIDByUsername
+//@   safety C18
+//@   requires p != nil
+//@   pure
+//@   ensures[C10.id] result1 == nil <==> (p.IDs != nil && username != "" && (username in p.IDs))
+//@   ensures[C10.id] result1 == nil ==> result0 == p.IDs[username]
